@@ -100,7 +100,7 @@ pub fn check_case(_ctx: &Ctx, case: &Case, m: usize, t: &mut Tally) {
         }
     }
     // ---- subdivision of every step into m sub-steps
-    if case.spec.min_nonzero() / m as f32 >= 0.0099 && n * m <= 9000 {
+    if case.spec.min_nonzero() / m as f32 >= 0.0024 && n * m <= 9000 {
         let s2 = case.spec.subdivided(m);
         let mut c2 = case.clone();
         c2.spec = s2;
@@ -124,6 +124,12 @@ pub fn check_case(_ctx: &Ctx, case: &Case, m: usize, t: &mut Tally) {
     }
     if case.spec.has_cogen() {
         t.count("cases_with_cogeneration");
+    }
+    if n > 1024 {
+        t.count("cases_longer_than_1024_steps");
+    }
+    if case.spec.min_nonzero() / (m as f32) < 0.0099 {
+        t.count("cases_with_sub_steps_below_0.01_kWh");
     }
     if case.lm {
         t.count("cases_with_load_matching");
@@ -151,6 +157,23 @@ pub fn run(ctx: &Ctx) -> Report {
         if r.chance(1, 2) {
             o.cogen = Tri::Always;
         }
+        let mut m = m;
+        match r.below(60) {
+            0 => {
+                // series longer than any block size a summation shortcut might use, with cogeneration
+                o.steps = Some(*r.pick(&[1100usize, 1500, 2049]));
+                o.cogen = Tri::Always;
+                m = 2;
+            }
+            1..=8 => {
+                // very small amounts (0.01 .. 0.06 kWh): sub-steps down to 0.0025 kWh, still above the library's
+                // 1e-3 kWh production guard
+                o.class = Some(crate::gen::Class::Decimal);
+                o.vmul = 1;
+                o.max = 0.06;
+            }
+            _ => {}
+        }
         let mut case = gen_case(r, &o, 30);
         if r.chance(1, 2) {
             case.lm = true;
@@ -162,10 +185,12 @@ pub fn run(ctx: &Ctx) -> Report {
         ("subdivisions_checked".to_string(), tally.get("subdivisions_checked"), 1000),
         ("cases_with_cogeneration".to_string(), tally.get("cases_with_cogeneration"), 500),
         ("cases_with_load_matching".to_string(), tally.get("cases_with_load_matching"), 500),
+        ("cases_longer_than_1024_steps".to_string(), tally.get("cases_longer_than_1024_steps"), 50),
+        ("cases_with_sub_steps_below_0.01_kWh".to_string(), tally.get("cases_with_sub_steps_below_0.01_kWh"), 300),
     ];
     Report {
         tally,
-        rule: "generated buildings (cogeneration with uneven fuel / electricity profiles, load matching, exports) are evaluated as declared, with their steps reordered by a random permutation, and with every step split into m equal sub-steps (m in 2..4, thorough up to 12; values generated as multiples of m grid units so that value / m stays >= 0.01 kWh); every annual field must agree and every per-step vector must follow the permutation / subdivision; non-trivial = more than one step and a profile that is not flat; distinct = distinct (components text, factors, k_exp, area, mode)".into(),
+        rule: "generated buildings (cogeneration with uneven fuel / electricity profiles, load matching, exports) are evaluated as declared, with their steps reordered by a random permutation, and with every step split into m equal sub-steps (m in 2..4, thorough up to 12; values generated as multiples of m grid units so that value / m stays >= 0.01 kWh, except a regime of very small amounts whose sub-steps go down to 0.0025 kWh - above the library's 1e-3 kWh guards -, and a regime of 1100..2049-step series with cogeneration); every annual field must agree and every per-step vector must follow the permutation / subdivision; non-trivial = more than one step and a profile that is not flat; distinct = distinct (components text, factors, k_exp, area, mode)".into(),
         assumptions: vec!["summation order changes with the layout: comparison within atol 1e-4 + rtol * cancellation scale (scales from the f64 reference model)".into()],
         quotas,
     }
